@@ -68,6 +68,7 @@ type callResult struct {
 	Req           string        `json:"req"`
 	Rep           string        `json:"rep"`
 	Panic         string        `json:"panic"`
+	Leftover      int           `json:"leftover"`
 }
 
 type msg struct {
@@ -315,7 +316,9 @@ func main() {
 			}
 			panic("no call " + name)
 		}
-		unknown := &call{kind: "raw", raw: mkMsg("noSuchMethod", 1, 77, []byte{0})}
+		// an unknown method WITH arguments (i32 field 1 = 5, string field 2 = "xy"): the processor must
+		// consume them, or the next message on the connection is read out of their bytes
+		unknown := &call{kind: "raw", raw: mkMsg("noSuchMethod", 1, 77, []byte{8, 0, 1, 0, 0, 0, 5, 11, 0, 2, 0, 0, 0, 2, 'x', 'y', 0})}
 		alphabet := []*call{pick("ret_struct", "return"), pick("v0", "return"), pick("three", "throw"), pick("ret_string", "error"), pick("fire", "return"), pick("baseEcho", "return"), pick("incPing", "throw"), unknown}
 		depth := 2
 		if thorough {
@@ -396,6 +399,10 @@ func main() {
 				}
 				req, _ := hex.DecodeString(cr.Req)
 				rep, _ := hex.DecodeString(cr.Rep)
+				if cr.Leftover != 0 {
+					v("request-bytes-left-unread:"+names[k], fmt.Sprintf("the processor left %d byte(s) of the request unread on the connection", cr.Leftover))
+					continue
+				}
 				if c.kind == "raw" {
 					pm, err := parseMsg(rep)
 					if err != nil || pm.typ != 3 {
